@@ -52,6 +52,10 @@ func (a *Activation) model(name string, fn *ssa.Function, args []Val, st *State,
 		}
 		t.modelSyms = append(t.modelSyms, c)
 		return st, []Val{{K: KF32, S: c, T: types.Typ[types.Float32]}}, true
+	case "sync/atomic.(*Bool).Store", "sync/atomic.(*Bool).Load", "sync/atomic.(*Bool).CompareAndSwap",
+		"sync/atomic.(*Pointer).Store", "sync/atomic.(*Pointer).Load", "sync/atomic.(*Pointer).CompareAndSwap",
+		"sync/atomic.(*Int32).Add", "sync/atomic.(*Int32).Load":
+		return a.atomicModel(name, args, st, pos, sig)
 	case "time.NewTimer":
 		// timer object: channel C fires only after d has elapsed (ghost: fired(timer) => elapsed >= d)
 		t.assumed["time.NewTimer: the timer channel never delivers before the duration has elapsed, and at most once"] = true
@@ -93,6 +97,13 @@ func (a *Activation) mutexIdentOf(mtx Val, st *State) (string, *Monitor, string)
 	t := a.t
 	if m, owner, ok := a.monitorOfMutex(mtx); ok {
 		return a.mutexRefOf(st, m, owner), m, owner
+	}
+	if mtx.Owner != "" {
+		for _, m := range t.eng.con.Monitors {
+			if m.PtrMtx && m.Pkg+"."+m.Type == mtx.OwnerT {
+				return mtx.S, m, mtx.Owner
+			}
+		}
 	}
 	if mtx.Loc != nil {
 		f := t.declareFun("$mtxof:"+mtx.Loc.Prefix, []string{"Int"}, "Int")
@@ -441,4 +452,79 @@ func (a *Activation) timerFact(st *State, ch Val, chosen string) {
 func recvOnly(T types.Type) bool {
 	c, ok := T.Underlying().(*types.Chan)
 	return ok && c.Dir() == types.RecvOnly
+}
+
+// atomicModel: sync/atomic cells are sequentially consistent memory cells; stores are stamped with a ghost
+// event so that contracts can state orderings (evtime("store:<field>", owner)).
+func (a *Activation) atomicModel(name string, args []Val, st *State, pos token.Pos, sig *types.Signature) (*State, []Val, bool) {
+	t := a.t
+	t.assumed["sync/atomic operations are sequentially consistent"] = true
+	recv := args[0]
+	var prefix, ref string
+	var k Kind
+	switch {
+	case strings.Contains(name, "(*Bool)"):
+		k = KBool
+	case strings.Contains(name, "(*Int32)"):
+		k = KInt
+	default:
+		k = KRef
+	}
+	if recv.Loc != nil {
+		prefix, ref = recv.Loc.Prefix, recv.S
+	} else {
+		switch k {
+		case KBool:
+			prefix = "sync/atomic.Bool"
+		case KInt:
+			prefix = "sync/atomic.Int32"
+		default:
+			prefix = "sync/atomic.Pointer"
+		}
+		ref = recv.S
+	}
+	arr := prefix + ".v"
+	if k == KBool {
+		// atomic.Bool stores a uint32; we keep the boolean
+		arr = prefix + ".v#b"
+	}
+	t.regArray(arr, "(Array Int "+sortOfKind(k)+")")
+	cur := sApp("select", t.lookup(st, arr), ref)
+	a.nilCheck(recv, st, pos, "atomic receiver")
+	field := prefix
+	if i := strings.LastIndex(prefix, "."); i >= 0 {
+		field = prefix[i+1:]
+	}
+	store := func(v string) {
+		a.guardCheck(st, prefix, ref, pos, true)
+		t.set(st, arr, sApp("store", t.lookup(st, arr), ref, v))
+		a.ghostEvent(st, "store:"+field, ref)
+	}
+	switch {
+	case strings.HasSuffix(name, ".Load"):
+		v := Val{K: k, S: cur, T: sig.Results().At(0).Type()}
+		return st, []Val{v}, true
+	case strings.HasSuffix(name, ".Store"):
+		a.escape(st, args[1])
+		store(args[1].S)
+		return st, nil, true
+	case strings.HasSuffix(name, ".Add"):
+		nv := "(+ " + cur + " " + args[1].S + ")"
+		a.obligeSafety(st, "ovf", "atomic add", inRangeTerm(nv, sig.Results().At(0).Type()), pos)
+		store(nv)
+		return st, []Val{{K: KInt, S: nv, T: sig.Results().At(0).Type()}}, true
+	case strings.HasSuffix(name, ".CompareAndSwap"):
+		a.escape(st, args[2])
+		ok := sEq(cur, args[1].S)
+		if k == KBool {
+			ok = sEq(cur, args[1].S)
+		}
+		okc := t.fresh("cas", "Bool")
+		t.assume(st.pc, sEq(okc, ok))
+		nv := sIte(okc, args[2].S, cur)
+		t.set(st, arr, sApp("store", t.lookup(st, arr), ref, nv))
+		a.ghostEvent(st, "cas:"+field, ref)
+		return st, []Val{boolVal(okc)}, true
+	}
+	return st, nil, false
 }
